@@ -15,6 +15,7 @@ CHECKS = {
  "C13": (True, "Bounded model checking of whitespace control at token level through the real parseTokens, compileNode, Render and trimWriter: presence of every trim token is a solver Boolean, text pieces and values have symbolic bytes, and the output is compared with (A) whitespace-erasure equality, (B) a reference trimmer when every hyphen faces literal text, (C) identity without hyphens.", "DESIGN.md §4 C13"),
  "C06": (True, "Bounded model checking of the block parser: the real parseTokens with the grammar built by the real AddStandardTags runs on every token sequence up to N over a 23-symbol alphabet (symbols are solver variables), and acceptance, the absence of a tree on rejection, and the shape of the tree are compared with a stack acceptor written from the statement; accepted trees are compiled.", "DESIGN.md §4 C06"),
  "C07": (True, "Bounded model checking of error location: tokens carry arbitrary (monotone) 64-bit line numbers as solver variables, path present/absent and nesting shapes are forked, and for each kind of render-time and parse-time failure the reported LineNumber, Path, message and Cause are asserted against the innermost failing token.", "DESIGN.md §4 C07"),
+ "C08": (True, "Bounded model checking of expression evaluation: array index over all 64-bit integers against a reference (negative from the end, out of range nil), map/property/size lookup with solver-chosen keys and payloads, strict mode, integer and string literals with symbolic bytes through the real ragel lexer and goyacc parser, pipelines against their assign-decomposed form, and whitespace (incl. newlines) inserted at every part boundary of corpus tags/objects.", "DESIGN.md §4 C08"),
  "C09": (True, "Bounded model checking of values.Equal/Less/Contains and the grammar's operator actions: every ordered pair of scalar kinds is forked, payloads (all integers of each width, finite floats, short strings, small arrays) are solver variables, and the documented comparison rules are asserted as a reference written from the statement.", "DESIGN.md §4 C09"),
 }
 ALL = ["C%02d" % i for i in range(1, 21)]
